@@ -689,6 +689,9 @@ SEM_WITNESS = {
     "TYPENAMES:instantiate_for_printing:fresh-names": "`dimension A`, `unit a: A`, `fn f(x) = x*a` is printed as `fn f<A: Dim>(x: A) -> A²`",
     "STRUCTSUBST:type_from_annotation:sequential": "findings/sem_witnesses.nbt: `hh(2 s)` has type Length and value 2 s",
     "RESULTLAST:vm:result-of-an-earlier-statement": "`numbat -e '5 m' -e 'print(\"x\")' -e 'let y = 1'` prints `x` and then `5 m`; line by line `5 m` then `x`, and the last input has no result",
+    "HARDNAME:compile:hard-coded-unit-lookup-unwrapped": "`numbat --no-prelude`: `dimension Time`, `unit sec: Time`, `fn now() -> DateTime`, `now() - now()` panics at bytecode_interpreter.rs (`Option::unwrap()` on `None`: no unit called `second`); with `unit second: Length` the difference of two date-times is a Length",
+    "BASEUNITS:elaborate_statement:second-base-unit-accepted": "`unit foo: Length`, `1 foo + 1 m` type-checks and fails at run time: unit 'm' can not be converted to 'foo' (the project's own tests define such units, e.g. `unit jump: Length`)",
+    "ZEROCONV:vm:ConvertTo:unit-less-zero-target": "`let origin: Length = 0`, `5 m -> origin` type-checks and fails at run time: unit 'm' can not be converted to ''",
     "CMDWORDS:command-words-are-free-identifiers": "file: `let reset = 5`, `reset`, `let z = reset + 1` succeeds (6); typed into the REPL the second line wipes the session and the third fails",
 }
 
@@ -709,10 +712,10 @@ def sem(*prefixes):
 
 
 _SEM_MAP = {
-    "C01": ("LASTRES", "FNREF", "UNITENV", "POLYLIT", "STRUCTSUBST"),
+    "C01": ("LASTRES", "FNREF", "UNITENV", "POLYLIT", "STRUCTSUBST", "BASEUNITS", "ZEROCONV"),
     "C02": ("STRUCTSUBST",),
     "C07": ("FNREF", "BATCHSTATE", "RESULTLAST", "CMDWORDS"),
-    "C08": ("LASTRES", "FMTSPEC", "FOREIGNDECL"),
+    "C08": ("LASTRES", "FMTSPEC", "FOREIGNDECL", "HARDNAME"),
     "C09": ("LASTRES", "FNREF"),
     "C13": ("UNITENV",),
     "C15": ("TYPENAMES",),
@@ -786,6 +789,39 @@ TRYCONV_EXEMPT = {
 }
 PROPERTIES["C08"]["rules"] += [("TRYCONV", lambda ctx: rule_tryconv(ctx.lib, TRYCONV_EXEMPT))]
 PROPERTIES["C08"]["explanation"] += " (TRYCONV) Every integer TryFrom/TryInto conversion in the library is propagated, applied to a constant, or applied to a value clamped to a constant bound (one exempt function with its bound argument): none is an unwrap of an input-dependent value — this includes the code that renders failures."
+
+# ---------------------------------------------------------------- third hunt round (H10 type checker, H11 units, H12 sessions/CLI, H13 VM)
+from aliasreg import rule_aliasreg  # noqa: E402
+from dimbound import rule_dimbound, rule_hasfield  # noqa: E402
+from expsup import rule_expsup  # noqa: E402
+
+for _pid in ("C01", "C02", "C16"):
+    PROPERTIES[_pid]["rules"] += [("DIMBOUND", lambda ctx: rule_dimbound(ctx.lib))]
+    PROPERTIES[_pid]["explanation"] += " (DIMBOUND) Every requirement 'this operand is a dimension' goes through enforce_dtype, which records the type parameters of a closed dimension type, so an annotation `<A>` without `: Dim` cannot be used in arithmetic."
+PROPERTIES["C02"]["rules"] += [("HASFIELD", lambda ctx: rule_hasfield(ctx.lib))]
+PROPERTIES["C02"]["explanation"] += " (HASFIELD) Field-access constraints are solved as soon as the struct constructor is known, not only for closed struct types."
+for _pid in ("C15", "C16"):
+    PROPERTIES[_pid]["rules"] += [("EXPSUP", lambda ctx: rule_expsup(ctx.lib))]
+    PROPERTIES[_pid]["explanation"] += " (EXPSUP) Exponents of printed types use unicode superscripts only in the single-digit range the tokenizer reads back."
+for _pid in ("C09", "C13", "C08"):
+    PROPERTIES[_pid]["rules"] += [("ALIASREG", lambda ctx: rule_aliasreg(ctx.lib))]
+    PROPERTIES[_pid]["explanation"] += " (ALIASREG) The name and every alias of a variable (like those of a unit) are registered with the prefix parser, where reserved identifiers and unit clashes are detected."
+PROPERTIES["C08"]["rules"] += [("OPTAB.numops", lambda ctx: _numops_only(ctx))]
+PROPERTIES["C08"]["explanation"] += " (OPTAB num_operands) The disassembler's operand table agrees with the decoder for every opcode (a disagreement makes `--debug` transmute operand bytes into opcodes)."
+
+
+def _numops_only(ctx):
+    from core import RuleOut
+    from optab import rule_optab_operands
+
+    full = rule_optab_operands(ctx.lib)
+    o = RuleOut("OPTAB", "the disassembler's operand table agrees with the decoder")
+    o.findings = [f for f in full.findings if ":num_operands:" in f.key]
+    o.errors = list(full.errors)
+    o.analysed = {"num_operands_rows": len(o.findings)}
+    o.floor("num_operands_rows", len(o.findings), 30)
+    return o
+
 
 NOT_APPLICABLE = {
     "C03": "numerical agreement of conversion factors over 500 units is a statement about run-time values; no structural clause is a necessary condition that is not already covered under C04/C11/C12 (static analysis cannot bound the arithmetic)",
